@@ -105,6 +105,18 @@ class DictMixin:
                 z3.Select(cur, k), z3.Select(oth, k))))
             self.s_set(new, st, u)
             return new
+        if name == "issubset":
+            other = args[0]
+            if not (isinstance(other, VRef) and other.cls == "set"):
+                raise Unsupported("set.issubset with a non-set")
+            kb = base_tag(recv.elem)
+            k = z3.Const(fresh_name("sk"), sort_of(kb))
+            if other.elem is None:
+                # the other set is still untyped, i.e. empty
+                return VBool(z3.ForAll([k], z3.Not(z3.Select(cur, k))))
+            oth = self.s_arr(other, st)
+            return VBool(z3.ForAll([k], z3.Implies(z3.Select(cur, k),
+                                                   z3.Select(oth, k))))
         if name == "copy":
             new = self.alloc(st, "set", recv.elem, "scopy")
             self.s_set(new, st, cur)
